@@ -1,5 +1,5 @@
 # replay of a bounded stand-in violation (C08): re-run native/c08_history.py
 import sys
-print("gaussian [['N1'], ['D1']]: building segment 1 changed the register of an earlier program from [0, 1] to [0]")
+print("bosonic [['N1'], ['N1']]: running segment 1 of a valid history raised UnboundLocalError: cannot access local variable 'weights' where it is not associated with a value")
 print('REPLAY-VIOLATION')
 sys.exit(1)
